@@ -9,7 +9,7 @@ import Pog.Model.Conv
   the objects that exist                         `Heap` (id ↦ `HObj`)
   what `unstructure_to_dict` returns             `PV`: JSON plus `.leak id` (a LIVE dataclass instance left in the
                                                  output: a field annotated with an unresolved forward reference is passed
-                                                 through unchanged) and `.opaque` (UUID, time, bytearray: not JSON)
+                                                 through unchanged) and `.opaque` (bytearray, other objects: not JSON)
   `converter.unstructure` following references   `hUnstr` (fuel = nesting depth; a reference cycle consumes all of it)
   `_serialize_with_tracking(obj, visited)`       `serF … visited reg obj`
   `_ensure_all_dicts(obj, visited)`              `PV.ensureWith track reg obj` (`track` = `_serialize_with_tracking` with that `visited`)
@@ -35,6 +35,8 @@ inductive HVal where
   | bytearray (v : Str)
   | datetime (v : Str)
   | date (v : Str)
+  | time (v : Str)
+  | uuid (v : Str)
   | enum (cls : Str) (v : JsonV)
   | opaque (kind : Str) (v : Str)
   | ref (id : Nat)
@@ -81,7 +83,7 @@ def PV.ofJsonVKvs : List (Str × JsonV) → List (Str × PV)
 end
 
 mutual
-/-- The JSON `json.dumps` would write; `none` = it raises `TypeError` (a leaked instance, a UUID, …). -/
+/-- The JSON `json.dumps` would write; `none` = it raises `TypeError` (a leaked instance, a bytearray, …). -/
 def PV.toJson? : PV → Option JsonV
   | .null => some .null
   | .bool b => some (.bool b)
@@ -150,6 +152,8 @@ def immediatePV : HVal → Option PV
   | .bytearray v => some (.opaque "bytearray".toList v)
   | .datetime v => some (.opaque "datetime".toList v)
   | .date v => some (.opaque "date".toList v)
+  | .time v => some (.opaque "time".toList v)
+  | .uuid v => some (.opaque "uuid".toList v)
   | .opaque k v => some (.opaque k v)
   | .ref _ => none
 
@@ -166,6 +170,14 @@ def hIdentity (heap : Heap) (v : HVal) : Except UErr PV :=
     | some p => .ok p
     | none => .error .illTyped
 
+/-- `data.isoformat()` (see `unstrIso`). -/
+def hUnstrIso (c : Codecs) (v : HVal) : Except UErr PV :=
+  match v with
+  | .datetime d => .ok (.str (c.datetime.encode d))
+  | .date d => .ok (.str (c.date.encode d))
+  | .time t => .ok (.str (c.time.encode t))
+  | _ => .error .attrError
+
 def hUnstrLeaf (c : Codecs) (heap : Heap) (l : Leaf) (v : HVal) : Except UErr PV :=
   if !leafHasUnstructureHook l then hIdentity heap v else
   match l with
@@ -173,16 +185,17 @@ def hUnstrLeaf (c : Codecs) (heap : Heap) (l : Leaf) (v : HVal) : Except UErr PV
     match v with
     | .bytes b => .ok (.str (c.bytes.encode b))
     | _ => .error .typeError
-  | .datetime =>
+  | .datetime => hUnstrIso c v
+  | .date => hUnstrIso c v
+  | .time => hUnstrIso c v
+  | .uuid =>
     match v with
-    | .datetime d => .ok (.str (c.datetime.encode d))
-    | .date d => .ok (.str (c.date.encode d))
-    | _ => .error .attrError
-  | .date =>
-    match v with
-    | .date d => .ok (.str (c.date.encode d))
-    | .datetime d => .ok (.str (c.datetime.encode d))
-    | _ => .error .attrError
+    | .uuid u => .ok (.str (c.uuid.encode u))
+    | .none => .ok (.str (pyStr .null))
+    | .bool b => .ok (.str (pyStr (.bool b)))
+    | .int i => .ok (.str (pyStr (.int i)))
+    | .str s => .ok (.str s)
+    | _ => .error .illTyped                       -- `str(x)` of other objects is not modelled
   | _ => hIdentity heap v
 
 def hUnstrFields (rec : Ty → HVal → Except UErr PV) (cd : ClassDecl) (useDump : Bool)
@@ -254,6 +267,8 @@ def hUnstr (c : Codecs) : Nat → Heap → List Str → Decls → Option Ty → 
     | .bytes b => .ok (.str (c.bytes.encode b))
     | .datetime d => .ok (.str (c.datetime.encode d))
     | .date d => .ok (.str (c.date.encode d))
+    | .time t => .ok (.str (c.time.encode t))
+    | .uuid u => .ok (.str (c.uuid.encode u))
     | .enum _ m => .ok (enumPV m)
     | .bytearray b => .ok (.opaque "bytearray".toList b)
     | .opaque k s => .ok (.opaque k s)
